@@ -445,6 +445,32 @@ def solve(smt_text: str, expect: str, budget: int, want_model_for=None, workdir=
             pass
 
 
+def solve_excluding(smt_text: str, exclude: str, budget: int, workdir=None):
+    """Second opinion for an obligation already answered `unsat` by solver `exclude`: run the other solvers of the
+    portfolio.  Returns dict(result: 'unsat'|'sat'|'unknown', solver, tried)."""
+    workdir = workdir or os.environ.get("VERIF_SMTDIR") or tempfile.gettempdir()
+    h = hashlib.sha1(smt_text.encode()).hexdigest()[:16]
+    path = os.path.join(workdir, f"x{os.getpid()}_{h}.smt2")
+    with open(path, "w") as f:
+        f.write(smt_text + "\n(check-sat)\n")
+    tried = []
+    base = (exclude or "").split("+")[0]
+    try:
+        for idx, (name, _) in enumerate(SOLVERS):
+            if name == base:
+                continue
+            name, first, out, dt = run_one(idx, path, budget)
+            tried.append((name, first, round(dt, 3)))
+            if first in ("unsat", "sat"):
+                return dict(result=first, solver=name, tried=tried)
+        return dict(result="unknown", solver=None, tried=tried)
+    finally:
+        try:
+            os.unlink(path)
+        except OSError:
+            pass
+
+
 _VAL_RE = re.compile(r"\(\s*([^\s()]+)\s+(.*)\)\s*$")
 
 
